@@ -346,10 +346,19 @@ def follow_up(im, call):
         if call["op"] == "so" and call.get("p") is not None:
             c = {"op": "so", "p": call["p"], "b": call["b"], "n": call["n"]}
             # a store for the same pid takes the same identifiers; its outcome does not matter here
-        box.append(im.call(c))
+        r = im.call(c)
+        # ... and the identifiers can be taken through a whole life cycle again: store (or tag) the pid, delete it, store it
+        # once more — each call has to return, whatever it answers (a wait on something the failed call left behind shows here)
+        p = call.get("p")
+        if p is not None and call["op"] in ("so", "tag", "del"):
+            b = call.get("b") or call.get("c") or 7
+            n = call.get("n") or 1
+            for c2 in ({"op": "so", "p": p, "b": b, "n": n}, {"op": "del", "p": p}, {"op": "so", "p": p, "b": b, "n": n}, {"op": "del", "p": p}):
+                im.call(c2)
+        box.append(r)
     t = threading.Thread(target=go, daemon=True)
     t.start()
-    t.join(5.0)
+    t.join(8.0)
     return box[0] if box else None
 
 
